@@ -18,6 +18,37 @@ CHECKS = {
         ref="§5 C20"),
 }
 
+CHECKS["C03"] = dict(
+    text="Lean theorems for all programs and all payloads: the lexer reads a rendered literal of each of the seven kinds back as one "
+         "unit whatever its (valid) payload and continuation (lex_literal), parsing commutes with erasing literal payloads "
+         "(parse_erase, by the parser's own recursion), hence literal_payload_irrelevant at source level. Tie: real tokenise/parse "
+         "vs the Lean models on every generated program; direct shape oracle on the real parser over 42 contexts x 7 kinds x payloads "
+         "over the 28 syntax-significant characters (exhaustive to length 2 in the thorough tier).",
+    note=COMMON_NOTE + "The theorem excludes literals in the three headers the grammar reads as text (lambda arity, @ header, loop variable: hdrOK); "
+         "model fuel = token count + 1 (a `fuel` error has never been observed in the correspondence).",
+    technique="Lean 4 proof by induction over lexer steps and the parser's recursion; differential lexer/parser correspondence; shape oracle",
+    ref="§5 C03")
+CHECKS["C04"] = dict(
+    text="Lean theorem parse_append_closers: appending any prefix of the pending closers to a token list never changes the parse "
+         "(every structure, modifier and parent kind, any nesting), lexer lemmas for unterminated string / compressed literals at end "
+         "of input, and the source-level truncation_invariant_partial. Tie: lexer/parser correspondence; direct oracle "
+         "parse(closed) == parse(truncated) for every number of dropped closers on grammar-generated programs (thorough: all programs "
+         "of <= 6 symbols over a 16-symbol alphabet).",
+    note=COMMON_NOTE + "Partial in one named way: the parser theorem is proved for token lists without @ (function definitions/references); "
+         "@ programs are covered by the correspondence and the oracle only.",
+    technique="Lean 4 proof (state-machine view of _get_branches + induction on the parser's recursion); differential correspondence; truncation oracle",
+    ref="§5 C04")
+CHECKS["C05"] = dict(
+    text="Lean theorems for all digit strings: lex_integer, lex_leading_zero, lex_decimal, lex_second_point on the lexer model; "
+         "number_parts_plain / uses_rational_iff on the model of the NUMBER template (the text handed to sympy is the literal itself and a "
+         "literal with a point goes to the exact constructor); integer_value / decimal_value (a.b denotes (a*10^|b|+b)/10^|b|). Tie: lexer "
+         "and template correspondence (exhaustive short strings), value stream: exec(transpile(lit)) compared by type and exact equality "
+         "with fractions.Fraction and with the model, incl. an adversarial family aimed at mpmath.identify.",
+    note=COMMON_NOTE + "T5: sympy's own string parsers are assumed exact and validated per literal, not proved. Known finding F25: integer literals "
+         "go through sympy.nsimplify(<string>) whose text is pinned by the existing test; 258 of 0..20000 are mis-evaluated.",
+    technique="Lean 4 proof by induction on digit strings; differential lexer/template/value correspondence against fractions.Fraction",
+    ref="§5 C05")
+
 NOT_YET = {}
 
 def main():
